@@ -421,6 +421,50 @@ impl Part for Filters {
             Err(e) => out.set_fail(format!("sort_err:{class}"), format!("`{src}` on {c:?} failed: {e}")),
         }
 
+        // ---- sort by a dotted attribute path that some items do not have: whatever order the
+        // filter gives the incomplete items, it must not fail or panic, it returns a permutation, and
+        // the items that do have the path are ordered and stable among themselves
+        {
+            let holed: Vec<Value> = key_vals
+                .iter()
+                .enumerate()
+                .map(|(i, k)| match (i + c.count as usize) % 4 {
+                    3 => Value::from_pairs([("id", Value::from(i))]),
+                    2 if i % 3 == 0 => Value::from_pairs([("k", Value::from(i)), ("id", Value::from(i))]),
+                    _ => Value::from_pairs([("k", Value::from_pairs([("n", k.clone())])), ("id", Value::from(i))]),
+                })
+                .collect();
+            let complete = |i: usize| !matches!((i + c.count as usize) % 4, 3) && !((i + c.count as usize) % 4 == 2 && i % 3 == 0);
+            let src = format!("hs|sort(attribute='k.n', reverse=rev{kw_cs})");
+            let res = env.compile_expression(&src).map_err(|e| e.to_string()).and_then(|e| {
+                e.eval(Value::from_pairs([("hs", Value::from(holed)), ("rev", Value::from(c.reverse)), ("cs", Value::from(cs))])).map_err(|e| e.to_string())
+            });
+            match res.map(|v| ids_of(&v)) {
+                Ok(Some(ids)) => {
+                    out.labels.push("dotted_attribute_with_holes");
+                    let mut sorted_ids = ids.clone();
+                    sorted_ids.sort();
+                    if sorted_ids != (0..n).collect::<Vec<_>>() {
+                        out.set_fail(format!("sort_not_permutation:{class}"), format!("`{src}` on {c:?} returned ids {ids:?}"));
+                    }
+                    let have: Vec<usize> = ids.iter().copied().filter(|i| complete(*i)).collect();
+                    for w in have.windows(2) {
+                        let (ka, kb) = (&key_vals[w[0]], &key_vals[w[1]]);
+                        let Some(ord) = known_cmp(ka, kb, cs) else { continue };
+                        let bad_order = if c.reverse { ord == Ordering::Less } else { ord == Ordering::Greater };
+                        if bad_order || (ord == Ordering::Equal && w[0] > w[1]) {
+                            out.set_fail(
+                                format!("sort_by_path_wrong:{class}"),
+                                format!("`{src}` on {c:?}: ids {ids:?}; among the items that have k.n, {ka:?} then {kb:?} is out of order or lost its stability"),
+                            );
+                        }
+                    }
+                }
+                Ok(None) => out.set_fail(format!("sort_shape:{class}"), format!("`{src}` returned items without ids")),
+                Err(e) => out.set_fail(format!("sort_err:{class}"), format!("`{src}` on {c:?} failed: {e}")),
+            }
+        }
+
         // ---- plain sort of the keys themselves: ordered + permutation (multiset by position-matching)
         let src = format!("ks|sort(reverse=rev{kw_cs})");
         match run(&src) {
